@@ -1,7 +1,7 @@
 (* C20 -- Every configuration option reaches the font it configures (the resolution rule and the
    format table; the rest of the path is exercised end to end through the real CLI). *)
 From Coq Require Import List String Bool.
-From Verif Require Import Model.Config Proofs.Config_facts Generated.ColorFormats.
+From Verif Require Import Model.Config Proofs.Config_facts Generated.ColorFormats Generated.ConfigPaths.
 Import ListNotations.
 
 (* T1: flag > file > default, for every option type *)
@@ -17,3 +17,13 @@ Print Assumptions C20_flag_precedence.
 Theorem C20_color_formats_match_spec : tables_agree color_formats format_spec = true.
 Proof. exact (eq_refl true). Qed.
 Print Assumptions C20_color_formats_match_spec.
+
+(* G3: every documented option has a flag whose "unset" is distinguishable, is written to the
+   file the build steps read, is taken by load through the modelled rule (T1) and handed to
+   FontConfig under its own name; no field is left out, nothing else is written.  A statement
+   about config.py's current text (the rows are regenerated from it on every run). *)
+Theorem C20_config_paths_complete :
+  config_paths_ok config_rows pop_flag_is_the_modelled_rule
+                  written_keys_that_are_no_field passed_keywords_that_are_no_field = true.
+Proof. exact (eq_refl true). Qed.
+Print Assumptions C20_config_paths_complete.
